@@ -157,6 +157,7 @@ Section Decode.
 Variables pc pn : Z.     (* padding patterns of the presence bitmap and of the NULL bitmap: arbitrary *)
 Variable ffmt : Z -> Z -> bytes.
 Variable tz : Z -> Z.
+Variable efmt : Z -> bytes.
 Variable jsonp : bytes -> res bytes.
 
 (* a column as the streamer sees it: the mapper's name and signedness, the table map's type *)
@@ -166,11 +167,11 @@ Definition cs_type (s : colspec) : coltype := fst (snd s).
 Definition cs_uns (s : colspec) : bool := snd (snd s).
 
 Definition val_fine (s : colspec) (cv : cellv) : Prop :=
-  match cv with CVal v => cell_ok ffmt tz jsonp (cs_type s) (cs_uns s) v | _ => True end.
+  match cv with CVal v => cell_ok ffmt tz efmt jsonp (cs_type s) (cs_uns s) v | _ => True end.
 
 (* expected delivered column: name from the mapper by ordinal, then Spec.EncEvent.expect_cell *)
 Definition expect_column (s : colspec) (cv : cellv) : column :=
-  let '(code, absent, data) := expect_cell ffmt tz (cs_type s) (cs_uns s) cv in
+  let '(code, absent, data) := expect_cell ffmt tz efmt (cs_type s) (cs_uns s) cv in
   {| c_field := cs_name s; c_type := code; c_empty := absent; c_data := data |}.
 
 Definition expect_columns (specs : list colspec) (img : list cellv) : rowdata :=
@@ -243,7 +244,7 @@ Proof.
       rewrite EP. rewrite ES.
       specialize (IH (specsA ++ [s]) (imgA ++ [CVal v]) (pre ++ enc_cell (cs_type s) v) rest
                      ({| c_field := cs_name s; c_type := code_of (cs_type s); c_empty := false;
-                         c_data := Some (text ffmt tz (cs_type s) (cs_uns s) v) |} :: acc)
+                         c_data := Some (text ffmt tz efmt (cs_type s) (cs_uns s) v) |} :: acc)
                      Es' Ei' El').
       rewrite null_bits_snoc in IH. cbn [null_bit length] in IH. rewrite Nat.add_1_r in IH.
       rewrite <- app_assoc in IH. rewrite IH. cbn [rev]. rewrite <- app_assoc. reflexivity.
